@@ -169,6 +169,10 @@ class StochasticSearcher(BaseSearcher):
                 for pos, config in enumerate(restrict_configurations)
                 if pos not in remove_rc
             ]
+        else:
+            # The list is modified later on (configs returned are removed),
+            # this must not change the list of the caller
+            restrict_configurations = restrict_configurations.copy()
         return restrict_configurations
 
 
